@@ -145,7 +145,9 @@ def run(ctx):
         ident("array-argument-untouched:" + fn_name, float(np.sum(np.abs(out1 - out2))) + 1, 1.0)
         ctx.case(("array-arg", fn_name))
     for fn in ("db", "dbm"):
-        for val, neg in [(-1.0, True), ([1.0, -2.0], True), (2.0, False), ([1.0, 3.0], False), (np.array([0.5, -1e-9]), True)]:
+        for val, neg in [(-1.0, True), ([1.0, -2.0], True), (2.0, False), ([1.0, 3.0], False), (np.array([0.5, -1e-9]), True),
+                         (-1e-17, True), (-1e-300, True), (-5e-324, True), ([1.0, -1e-20], True), (np.array([[1.0, 2.0], [3.0, -2.2e-16]]), True), (-1, True),
+                         (1e-300, False), ([5e-324, 1.0], False), (np.array([[1.0, 2.0], [3.0, 4.0]]), False)]:
             try:
                 with warnings.catch_warnings():
                     warnings.simplefilter("ignore")
